@@ -2,6 +2,7 @@ import Csproto.Props.C14
 import Csproto.Props.C14History
 import Csproto.Bridge.Lazy
 import Csproto.Props.C14Nested
+import Csproto.Props.C14Opts
 /- axiom audit for C14 -/
 open Csproto
 #print axioms C14.clean_eq_new
@@ -46,3 +47,8 @@ open Csproto
 #print axioms Csproto.C14N.nested_history_refines_x
 #print axioms Csproto.C14N.xhistEx_ok
 #print axioms Csproto.C14N.xhistEx_outputs
+#print axioms Csproto.C14Opts.closeFds_erases_options
+#print axioms Csproto.C14Opts.closeFds_all_empty
+#print axioms Csproto.C14Opts.closeFds_option_independent
+#print axioms Csproto.C14Opts.closeFds_lazy_reset_witness
+#print axioms Csproto.Bridge.lazyClose_resets_first
